@@ -41,7 +41,7 @@ Print Assumptions C12_deterministic.
    illegal byte directly after a BS_, NS_, BO_ or SG_ definition is raised while that definition
    peeks for its optional continuation, before it is appended to Defs(). *)
 Theorem C12_error_local_partial : forall (il id : Z -> bool) (cr : list Z) (its1 : list item) (c : list Z) pos k defs,
-  cr_ok cr -> wf_items [] its1 -> Forall (fun b => 0 <= b < 256) c ->
+  cr_ok cr -> wf_items [] its1 -> sg_placed false (map snd its1) -> Forall (fun b => 0 <= b < 256) c ->
   (c = [] \/ exists kw ch r, c = kw ++ ch :: r /\ is_ident kw /\ ascii ch /\ idc ch = false
                             /\ bytes_eqb kw kw_signal = false) ->
   parse_bytes il id (print_items cr its1 ++ c) = Err pos k defs ->
